@@ -10,7 +10,8 @@ ASSUMPTIONS = ["faults injected at the file / blob object the reader is given (e
 RULE = ("synthetic files (all layouts, irregular, 2D) x every read path x every position k in the sequence of range reads the "
         "call issues x fault kind {exception, short, empty} (thorough: also pairs of faults), local file object and blob object "
         "(20 workers) with permuted completion orders; the call must raise, or return exactly the fault-free value; fault-free "
-        "calls under permuted completion order must return the true value")
+        "calls under permuted completion order must return the true value"
+        "; K: model fetch sequence vs observed range reads (exact order on the local backend, multiset on the 20-worker backend); Lean faultRaises verdict per fault position; a clean call after every faulted call")
 
 
 def canon(got):
